@@ -1456,4 +1456,59 @@ theorem xclaimF_succ {n : Nat} (hFE : FClaimE n) (hB : XClaimB n) (hF : XClaimF 
   | brk l rs1 => rw [h1] at ih1; exact ih1.elim
   | cont l rs1 => rw [h1] at ih1; exact ih1.elim
 
+/-! ## The `for` form -/
+
+theorem forDone_getD_self (g5 : GS) (L : Nat) (b c : Int) (h : L < g5.loops.length) :
+    ((forDone g5 L b c).loops.getD L {}).breakOff = b ∧ ((forDone g5 L b c).loops.getD L {}).contOff = c := by
+  simp [forDone, List.getD_eq_getElem?_getD, h]
+
+theorem asmFor_offs (L : Nat) (i t s b : List Instr) :
+    (asmFor L (i ++ [.popUntilMark L]) t (s ++ [.popUntilMark L]) (b ++ [.popUntilMark L])).2.1
+        = ((i.length + s.length + t.length + b.length + 14 : Nat) : Int)
+    ∧ (asmFor L (i ++ [.popUntilMark L]) t (s ++ [.popUntilMark L]) (b ++ [.popUntilMark L])).2.2
+        = ((i.length + 6 : Nat) : Int) := by
+  constructor <;> simp [asmFor] <;> omega
+
+theorem LoopsFinal.for_body {gs g2 g5 : GS} {c : Ctx} {label : Option String} {b k : Int} {s : St}
+    (h : LoopsFinal (forDone g5 gs.loops.length b k) s) (h1 : KeepFns (forGs gs c label) g2) (h2 : KeepFns g2 g5) :
+    LoopsFinal g2 s := by
+  have hl5 : (forDone g5 gs.loops.length b k).loops.length = g5.loops.length := forDone_len _ _ _ _
+  have hst2 : g2.loopstack = gs.loops.length :: gs.loopstack := h1.loopstack
+  have hst5 : (forDone g5 gs.loops.length b k).loopstack = gs.loopstack := by
+    show g5.loopstack.drop 1 = _
+    rw [h2.loopstack, hst2]; rfl
+  refine ⟨Nat.le_trans h2.loopsLen (hl5 ▸ h.1), fun id hid hns => ?_⟩
+  rw [hst2] at hns
+  have hne : gs.loops.length ≠ id := fun e => hns (e ▸ List.mem_cons_self ..)
+  rw [h.2 id (by rw [hl5]; exact Nat.lt_of_lt_of_le hid h2.loopsLen)
+    (by rw [hst5]; exact fun hm => hns (List.mem_cons_of_mem _ hm))]
+  show (g5.loops.set gs.loops.length _).getD id {} = _
+  rw [List.getD_eq_getElem?_getD, List.getElem?_set_ne hne, ← List.getD_eq_getElem?_getD]
+  exact h2.loopsGet id hid
+
+theorem goodAbove_mark {L id : Nat} (h : L ≠ id) : GoodAbove id [some (.mark L)] := fun x hx => by
+  simp only [List.mem_singleton] at hx
+  subst hx
+  exact ⟨_, rfl, fun e => by injection e with e; exact h e⟩
+
+theorem JumpedB.rebase {B X₀ : List (Option Val)} {tgt : Int} {γ : LCtx} {Γ : List LCtx} {m : Nat → Nat} {s : St}
+    {rs rs' : Ref.St} (h : JumpedB (X₀ ++ B) tgt γ Γ m s rs rs') (hg₀ : ∀ γ' ∈ Γ, GoodAbove γ'.id X₀) :
+    JumpedB B tgt γ Γ m s rs rs' := by
+  obtain ⟨s', m', X, r, hpc, hlin, hd, hg, hf, rel, hm', ext, fr⟩ := h
+  exact ⟨s', m', X ++ X₀, r, hpc, hlin, by rw [hd, List.append_assoc], fun γ' h' => (hg γ' h').append (hg₀ γ' h'), hf,
+    rel, hm', ext, fr⟩
+
+/-- the context record of a loop, at run time -/
+def forCtx (L : Nat) (label : Option String) (depth start : Nat) (brk cont : Nat) (lin : List (Option Nat)) (fr : Nat)
+    (D : List (Option Val)) : LCtx :=
+  { id := L, label := label, depth := depth, start := start, brkPos := (brk : Int), contPos := (cont : Int), lin := lin, fr := fr, D := D }
+
+theorem lsOut_fHd {L a b : Nat} (h : L < a) : LsOut (fHd L) a b := fun l hl => by
+  simp only [List.mem_cons, Instr.loopStart.injEq, reduceCtorEq, List.not_mem_nil, or_false] at hl
+  exact Or.inl (hl ▸ h)
+
+theorem lsOut_fMid (L : Nat) (cs : List Instr) (a b : Nat) : LsOut (fMid L cs) a b := fun l hl => by simp at hl
+theorem lsOut_fBr (cb : List Instr) (a b : Nat) : LsOut (fBr cb) a b := fun l hl => by simp at hl
+theorem lsOut_pl (L a b : Nat) : LsOut [Instr.popUntilMark L, .label] a b := fun l hl => by simp at hl
+
 end ZygoVerif.Sim
